@@ -382,6 +382,17 @@ def static_obligations(repo):
         ok = f is not None and f["target"] == target and f["args"] == args and not f["kwargs"]
         res.append((f"static.method[{meth}].forwards_to[{target}({', '.join(args)})]", ok, "numpoly/baseclass.py",
                     f["lineno"] if f else 0))
+    # every method of ndpoly that merely forwards to a numpoly function hands over EVERY one of its own parameters, each under the
+    # keyword of the same name (or positionally), and names the function after itself (method spelling == function spelling, C08)
+    for meth, f in sorted(fw.items()):
+        if meth.startswith("__") or meth in OPERATOR_ROUTES:
+            continue
+        own = [p_ for p_ in f["params"] if p_ != "self"]
+        handed = set(f["args"]) | set(f["kwargs"].values()) | set(f["star_kwargs"])
+        ok_all = all(p_ in handed for p_ in own) and (not f.get("has_varkw") or f.get("varkw") in handed)
+        ok_names = all(k == v for k, v in f["kwargs"].items())
+        res.append((f"static.method[{meth}].hands_over_every_parameter", bool(ok_all), "numpoly/baseclass.py", f["lineno"]))
+        res.append((f"static.method[{meth}].keywords_keep_their_names", bool(ok_names), "numpoly/baseclass.py", f["lineno"]))
     # ndpoly takes part in both protocols
     tree = ast.parse(open(os.path.join(repo, "numpoly/baseclass.py")).read())
     names = set()
